@@ -38,6 +38,8 @@ CONFIGS = {
                    "HBS_LMS_WINTERNITZ_PARAMETERS": "1, 1"}, "features": ["hbs_lms_verif"]},
     "L3": {"env": {"HBS_LMS_MAX_ALLOWED_HSS_LEVELS": "3", "HBS_LMS_TREE_HEIGHTS": "25, 25, 25",
                    "HBS_LMS_WINTERNITZ_PARAMETERS": "1, 1, 1"}, "features": ["hbs_lms_verif"]},
+    "L2smallbig": {"env": {"HBS_LMS_MAX_ALLOWED_HSS_LEVELS": "2", "HBS_LMS_TREE_HEIGHTS": "10, 5",
+                           "HBS_LMS_WINTERNITZ_PARAMETERS": "4, 8", "RUSTFLAGS": "--cfg kani_biglog"}, "features": ["hbs_lms_verif"]},
     "L2small": {"env": {"HBS_LMS_MAX_ALLOWED_HSS_LEVELS": "2", "HBS_LMS_TREE_HEIGHTS": "10, 5",
                         "HBS_LMS_WINTERNITZ_PARAMETERS": "4, 8"}, "features": ["hbs_lms_verif"]},
 }
@@ -62,7 +64,11 @@ class Harness:
         self.note = meta.get("note", "")
         self.contract = meta.get("contract", "")
         # optional extra cargo-kani flags for this harness (e.g. --no-memory-safety-checks), space separated
-        self.kani_args = meta.get("kani_args", "")   # free text: which clause / contract this harness discharges
+        # CBMC's pointer-validity checks (dereference of dead/out-of-bounds objects) are off by default: the crate and tinyvec
+        # are #![forbid(unsafe_code)], Rust-level panics (bounds checks, overflow, unwrap, capacity) stay on as assertions.
+        # They multiply the number of checks by ~5 and with it Kani's run time (A.1 of DESIGN). `kani_args=full` restores them.
+        ka = meta.get("kani_args", "--no-memory-safety-checks --no-undefined-function-checks")
+        self.kani_args = "" if ka == "full" else ka   # free text: which clause / contract this harness discharges
 
     @property
     def qualified(self):
